@@ -170,6 +170,13 @@ OutFamily == { Scn("out", F(t, <<>>), <<>>, <<F(<<>>, os)>>) : t \in OutTargets,
              \cup { Scn("out", F(t, <<>>), <<L("", "T3", "")>>, <<F(<<L("", "T3", "")>>, os)>>) : t \in OutTargets, os \in UNION {PermSeqs(S) : S \in OutSets} }
 
 -----------------------------------------------------------------------------
+\* labels are triples, not strings: a name or subtype may contain "/" and the printed type.  The parameter
+\* (a/scn.t7, T7, x) and the value (a, T7, scn.t7/x) - and the like - have nothing in common but their type
+SlashLabels == {L("a/scn.t7", "T7", "x"), L("a", "T7", "scn.t7/x"), L("a/scn.t7/scn.t7", "T7", ""), L("a", "T7", "scn.t7/scn.t7/")}
+SlashFamily == { Scn("slash", F(<<p>>, <<>>), <<v>>, <<>>) : p \in SlashLabels, v \in SlashLabels }
+               \cup { Scn("slash", F(<<p>>, <<>>), <<>>, <<F(<<>>, <<v>>)>>) : p \in SlashLabels, v \in SlashLabels }
+
+-----------------------------------------------------------------------------
 \* C16: option processing.  Exact-key targets; every arrangement of the supplied values in which keys
 \* repeat (the last occurrence must win), every default/call split, nil values, a nil option.
 \* (name casing is varied by the harness at the API and in the struct tags)
@@ -195,8 +202,8 @@ FamilyScenarios == CASE Family = "C03" -> C03Family
                      [] Family = "C02" -> CycleFamily \cup C05Family \cup MatchFamily \cup XFamily
                      [] Family = "C06" -> CycleFamily \cup C04Family
                      [] Family = "C04" -> C04Family
-                     [] Family = "C13" -> CycleFamily \cup MatchFamily
-                     [] Family = "C01" -> C03Family \cup CycleFamily \cup MatchFamily \cup OutFamily
+                     [] Family = "C13" -> CycleFamily \cup MatchFamily \cup SlashFamily
+                     [] Family = "C01" -> C03Family \cup CycleFamily \cup MatchFamily \cup OutFamily \cup SlashFamily
                      [] Family = "C15" -> OutFamily \cup MatchFamily
                      [] Family = "C16" -> {x \in C16Family : x.ndef <= Len(x.inputs)}
                      [] OTHER -> {}
